@@ -121,7 +121,9 @@ class Gen:
             n = self.r.randint(1, max(1, int(self.o.max_stmts - depth)))
         # optional scope name (never in loops: their scope is re-entered)
         if named_ok and not top and self.r.random() < self.o.early and want is not None and depth < self.o.max_depth:
-            nm = self.fresh("s")
+            # names come from a small pool half of the time: nested scopes may then carry the same name, and
+            # breakOut must leave the innermost one of that name
+            nm = self.r.choice(["sA", "sA", "sB"]) if self.r.random() < 0.65 else self.fresh("s")
             out.append(["scopeName", nm])
             env.named.append((nm, want, len(env.scopes)))
             named_here = nm
@@ -217,7 +219,7 @@ class Gen:
         r = self.r.random()
         vis = env.all_visible()
         self.features.add("scoping")
-        if r < 0.35:
+        if r < 0.25:
             # shadow an outer variable with private, possibly with another type
             outer = [n for n in vis if n not in env.scopes[-1] and n.startswith("_v")]
             if outer:
@@ -226,7 +228,7 @@ class Gen:
                 e = self.expr(env, depth + 1, ty)
                 env.scopes[-1][n] = ty
                 return [["lpriv", self.spell(n), e], ["t", self.marker(), ["lvar", self.spell(n)]]]
-        if r < 0.6:
+        if r < 0.45:
             # private "name" / private [names]: declares nil holders in the current scope
             names = [self.fresh("_v") for _ in range(self.r.randint(1, 2))]
             for n in names:
@@ -238,17 +240,32 @@ class Gen:
                 out.append(["t", self.marker(), ["lvar", names[0]]])
             return out
         if r < 0.85:
-            # params from a literal array
-            names = [self.fresh("_v") for _ in range(self.r.randint(1, 3))]
+            # params from a literal array; the array may be SHORTER than the name list (the remaining names must still be
+            # bound - to nil - in the current scope), and names may shadow variables of calling scopes
+            outer = sorted(n for n in vis if n not in env.scopes[-1] and n.startswith("_v"))
+            names = []
+            for _ in range(self.r.randint(1, 3)):
+                if outer and self.r.random() < 0.6:
+                    names.append(outer.pop(self.r.randrange(len(outer))))
+                else:
+                    names.append(self.fresh("_v"))
+            given = len(names) if self.r.random() < 0.35 else self.r.randint(0, len(names))
             elems = []
             tys = []
-            for n in names:
+            for n in names[:given]:
                 ty = self.r.choice([NUM, BOOL, ARR])
                 elems.append(self.expr(env, depth + 2, ty))
                 tys.append(ty)
+            tys += [ANY] * (len(names) - given)
             for n, ty in zip(names, tys):
                 env.scopes[-1][n] = ty
-            return [["params", ["arr", elems], names]]
+            out = [["params", ["arr", elems], [self.spell(n) for n in names]]]
+            for n in names[given:]:
+                out.append(["t", self.marker(), ["lvar", self.spell(n)]])
+                if self.r.random() < 0.6:
+                    out.append(["lset", self.spell(n), self.lit(NUM)])      # must stay in this scope
+                    env.scopes[-1][n] = NUM
+            return out
         # read of a variable that is not visible (must be nil): never defined, or defined in a scope that has ended
         vis = env.all_visible()
         dead = [n for n in env.dead if n not in vis]
@@ -291,7 +308,9 @@ class Gen:
             blk = self.block(env, depth + 1, exit_ty if exit_ty in (NUM, BOOL, ARR) else None, "skip", allow_early=False, named_ok=False)
             return [["exitWith", cond, blk]]
         if env.named and (r < 0.8 or env.try_depth == 0):
-            nm, ty, _ = self.r.choice(env.named)
+            nm = self.r.choice(env.named)[0]
+            # the target is the innermost enclosing scope of that name: its type decides the value
+            nm, ty, _ = [x for x in env.named if x[0] == nm][-1]
             self.features.add("breakOut")
             v = self.expr(env, depth + 1, ty) if ty in (NUM, BOOL, ARR) else None
             return [["e", ["if", cond, [["t", self.marker(), None], ["breakOut", nm, v]], None]]]
